@@ -8,6 +8,7 @@ def run(R):
     common.load_ir(R)
     names = common.names_for(R, 'C16')
     obs = check.verify_functions(R, names)
+    obs += common.avr_pass(R, names)
     obs += common.lemma_obligations(R, 'C16')
     check.discharge(R, obs, timeout=60)
     R.assumptions += [
